@@ -382,7 +382,8 @@ func TestLiteralForms(t *testing.T) {
 	neg := func(e *ir.Expr) *ir.Expr { return ir.Un(ir.OpNeg, e) }
 	not := func(e *ir.Expr) *ir.Expr { return ir.Un(ir.OpNot, e) }
 	tbl := []textCase{
-		{`0`, L(0)}, {`00`, L(0)}, {`007`, L(7)}, {`9223372036854775807`, L(math.MaxInt64)}, {`-9223372036854775808`, L(math.MinInt64)},
+		{`0`, L(0)}, {`00`, L(0)}, {`007`, L(7)}, {`010`, L(10)}, {`0017`, L(17)}, {`08`, L(8)}, {`019`, L(19)}, {`-010`, L(-10)}, {`0100 + 09`, ir.Bin(ir.OpAdd, L(100), L(9))},
+		{`00000000000000000000009223372036854775807`, L(math.MaxInt64)}, {`-0`, L(0)}, {`9223372036854775807`, L(math.MaxInt64)}, {`-9223372036854775808`, L(math.MinInt64)},
 		{`- 9223372036854775808`, L(math.MinInt64)}, {"-\n9223372036854775808", L(math.MinInt64)}, {`-9223372036854775807`, L(-math.MaxInt64)},
 		{`-1`, L(-1)}, {`- 1`, L(-1)}, {`-(1)`, neg(L(1))}, {`--1`, neg(L(-1))}, {`- -1`, neg(L(-1))}, {`---1`, neg(neg(L(-1)))}, {`----1`, neg(neg(neg(L(-1))))},
 		{`-(-1)`, neg(L(-1))}, {`(-1)`, L(-1)}, {`-((1))`, neg(L(1))}, {`--9223372036854775808`, neg(L(math.MinInt64))}, {`-(9223372036854775807)`, neg(L(math.MaxInt64))},
